@@ -327,19 +327,31 @@ class ExecExpr(ExecBase):
         """cheap test used for short-circuit operands: only the class facts of the path condition are consulted
         (enough to see that `typeis(x, C)` is impossible); anything else is assumed feasible"""
         cache = self.__dict__.setdefault("_clsfact_cache", {})
-        s = z3.Solver()
-        s.set("timeout", 300)
-        n = 0
+        gk = guard.get_id()
+        if gk not in cache:
+            cache[gk] = "cls_of" in guard.sexpr()
+            self.__dict__.setdefault("_keepalive", []).append(guard)
+        if not cache[gk]:
+            # a guard that says nothing about classes cannot contradict the class facts (pruning only: an infeasible operand
+            # that is evaluated anyway can at worst put the function out of reach)
+            return True
+        facts = []
         for p in st.pc:
             k = p.get_id()
             if k not in cache:
                 from .verify import has_quantifier
                 cache[k] = (not has_quantifier(p)) and ("cls_of" in p.sexpr())
+                self.__dict__.setdefault("_keepalive", []).append(p)      # ids are only unique among live terms
             if cache[k]:
-                s.add(p)
-                n += 1
-        s.add(guard)
-        return s.check() != z3.unsat
+                facts.append(p)
+        if not facts:
+            return True
+        sv = z3.Solver()
+        sv.set("timeout", 300)
+        for p in facts:
+            sv.add(p)
+        sv.add(guard)
+        return sv.check() != z3.unsat
 
     def same_heap(self, a, b):
         if set(a.heap) - set(b.heap):
